@@ -77,11 +77,66 @@ def real_groups(tier, seed):
                            "defs": ["-ffp-contract=off"], "pre": "static bool g_verbose=false;\n#include <cmath>\nusing std::sqrt; using std::abs;"})
     return groups
 
+# second family (harness/expr_real2.h): division forms, math functions, comparisons / logical operators, D /= scalar
+PRE2 = ("static bool g_verbose=false;\n#include <cmath>\n"
+        + "".join("using std::%s; " % f for f in
+                  ("sqrt abs sin cos tan exp exp2 expm1 log log10 log2 log1p cbrt asin acos atan sinh cosh tanh asinh acosh atanh erf tgamma lgamma "
+                   "ceil round floor trunc pow atan2 hypot isnan isinf isfinite").split()))
+UNARY = "cbrt exp exp2 expm1 log log10 log2 log1p sin cos tan asin acos atan sinh cosh tanh asinh acosh atanh erf tgamma lgamma ceil round floor trunc".split()
+DIVX = [("dv0", 4, 7, "A*A + kk(A,1)", "all"), ("dv1", 0, 7, "kk(A,7) / (A*A + kk(A,1))", "all"), ("dv2", 0, 7, "A / kk(A,3)", "all"),
+        ("dv3", 0, 7, "kk(A,3) - A", "all"), ("dv4", 1, 7, "(A - B) / (C*C + kk(A,2))", "all"), ("dv5", 4, 7, "abs(B) + kk(A,2)", "fp"),
+        ("dv6", 2, 7, "kk(A,2) * A / (abs(B) + kk(A,1))", "fp"), ("dv7", 3, 7, "kk(A,5) + B * kk(A,-2)", "all")]
+BIN2 = [("mn", 5, "mn(A,B)"), ("mx", 5, "mx(A,B)"), ("mnx", 5, "mn(A + B, C) - mx(A, B * C)"), ("pow", 7, "pow(A,B)"), ("atan2", 7, "atan2(A,B)"),
+        ("hypot", 7, "hypot(A,B)"), ("pow2", 5, "pow(abs(A) + kk(A,1), kk(A,2) - B)")]
+BOOLX = [("lt", "A < B", "all"), ("le", "A <= B", "all"), ("gt", "A > B", "all"), ("ge", "A >= B", "all"), ("eq", "A == B", "all"), ("ne", "A != B", "all"),
+         ("and", "(A <= B) && (B != C)", "all"), ("or", "(A < B) || (A > C)", "all"), ("not", "!(A == B)", "all"), ("lts", "A < kk(A,1)", "all"),
+         ("sle", "kk(A,0) <= B", "all"), ("cmpx", "(A + B) >= (C - A)", "all"), ("isnan", "isnan(A)", "fp"), ("isinf", "isinf(A - B)", "fp"),
+         ("isfin", "isfinite(A * B)", "fp"), ("andor", "((A < B) && (B < C)) || (A == C)", "all")]
+
+def real2_groups(tier, seed):
+    rng = random.Random(seed * 911 + 5)
+    isas = core.QUICK_ISAS if tier == "quick" else core.ALL_ISAS
+    groups = []
+    for isa in isas:
+        for t in ["float", "double", "int32_t", "int64_t"]:
+            fp = t in ("float", "double")
+            V = {"scalar": 1, "sse2": 16, "sse42": 16, "avx": 32, "avx2": 32, "avx512": 64}[isa] // (4 if t in ("float", "int32_t") else 8)
+            sizes = sorted(set([1, V - 1 or 1, V, V + 1, 2 * V + 1, 3 * V + 2]))
+            pick = (lambda k: rng.sample(sizes, min(k, len(sizes))))
+            calls = []
+            for (nm, op, modes, txt, dom) in DIVX:
+                if dom == "fp" and not fp: continue
+                for n in pick(2 if tier == "quick" else 5):
+                    calls.append('REXPR2_CASE(%s, %d, %d, %d, "%s", %du, %s);' % (t, n, op, modes, nm, seed * 13 + len(calls), txt))
+            for (nm, txt, dom) in BOOLX:
+                if dom == "fp" and not fp: continue
+                for n in pick(1 if tier == "quick" else 4):
+                    calls.append('RBOOL_CASE(%s, %d, 7, "%s", %du, %s);' % (t, n, nm, seed * 13 + len(calls), txt))
+            for n in pick(2 if tier == "quick" else 5):
+                calls.append("run_rdivs<%s,%d>(%du, %d);" % (t, n, seed * 7 + n, rng.choice([2, 3, 7, 10])))
+            if fp:
+                fns = UNARY if tier != "quick" else rng.sample(UNARY, 9)
+                for fn in fns:
+                    for n in pick(1 if tier == "quick" else 3):
+                        calls.append('REXPR2_CASE(%s, %d, %d, 7, "%s", %du, %s(A));' % (t, n, rng.randint(0, 3), fn, seed * 13 + len(calls), fn))
+                calls.append('REXPR2_CASE(%s, %d, 1, 7, "sinx", %du, sin(A + B) * C - exp(kk(A,-1) * abs(B)));' % (t, rng.choice(sizes), seed))
+                for (nm, modes, txt) in BIN2:
+                    for n in pick(1 if tier == "quick" else 3):
+                        calls.append('REXPR2_CASE(%s, %d, %d, %d, "%s", %du, %s);' % (t, n, rng.randint(0, 3), modes, nm, seed * 13 + len(calls), txt))
+            groups.append({"key": "%s/%s/x" % (isa, t), "header": "expr_real2.h", "isa": isa, "opt": "-O2", "calls": calls,
+                           "defs": ["-ffp-contract=off"], "pre": PRE2})
+    return groups
+
+def all_real_groups(tier, seed):
+    return real_groups(tier, seed) + real2_groups(tier, seed)
+
 def run(tier, seed):
     return flow.standard_run(
-        PID, tier, seed, "Fastor.C02.assign_correct", "FastorModel.Model.Expr", sym_groups, real_groups,
+        PID, tier, seed, "Fastor.C02.assign_correct", "FastorModel.Model.Expr", sym_groups, all_real_groups,
         assumptions=["vector primitives are lane-wise (property C08) — C02 is proved relative to it",
-                     "division, math functions, comparisons and the reciprocal-multiply form are covered by the real-type value runs only",
+                     "division (tensor/tensor, scalar/tensor, tensor/scalar, /=), the 27 element-wise math functions, min/max/pow/atan2/hypot, comparisons, logical operators and "
+                     "isnan/isinf/isfinite are covered by the real-type value runs only (bit for bit against the same std:: function applied per element); "
+                     "D /= scalar (documented reciprocal-multiply) is tested within 2 ulp of the true quotient",
                      "real-type runs are compiled with -ffp-contract=off so that the scalar reference has defined rounding; integer references wrap around"],
         rule="seeded random expression trees (depth <= 3, quick; <= 4 thorough) over {tensor, scalar, + - *, unary minus} assigned with = += -= *= to tensors of "
              "sizes around multiples of the vector width; non-trivial = size not a multiple of the width or compound operator",
